@@ -45,8 +45,9 @@ def configs(tier):
                 for overwrite in ((1,) if tier == "quick" or backups == -1 else (1, 0)):
                     out.append({"scheme": scheme, "backups": backups, "overwrite": overwrite, "mode": mode, "remove-old": 1,
                                 "plant": 0, "limit": 512, "aux": 1})
-    # file name shapes: no extension (`app` -> `app.1`), dotted stem (`app.v1.log` -> `app.v1.1.log`)
-    for name in ("app", "app.v1.log"):
+    # file name shapes: no extension (`app` -> `app.1`), dotted stem (`app.v1.log` -> `app.v1.1.log`), start date appended by the sink
+    # (FilenameAppendOption::StartDate: constructed with `app.log`, files `app_<date>.log`, `app_<date>.1.log`)
+    for name in ("app", "app.v1.log", "app+date.log"):
         for scheme in ("index", "date", "datetime"):
             for backups in ((1, -1) if tier == "quick" else (0, 1, 2, -1)):
                 for mode in ("a", "w"):
